@@ -77,9 +77,14 @@ def one_call(kind, name, args, kwargs, tag):
     for lock in (True, False):
         s, root, keep = S.make(kind, lock)
         before = S.snapshot(root)
+        mbefore = S.meta_snapshot(root)
+        subject_locked = bool(getattr(s, "is_locked", False))
         out = S.invoke(s, name, args, kwargs, kind)
         after = S.snapshot(root)
+        mafter = S.meta_snapshot(root)
         res["L" if lock else "U"] = {"out": out, "changed": before != after,
+                                     # (only when the object the call is made on is itself locked: an unlocked stack over a locked member may rename it)
+                                     "meta_diff": [f"{a} -> {b}" for a, b in zip(mbefore, mafter) if a != b][:2] if (mbefore != mafter and subject_locked) else None,
                                      "bind_changed": strip_locks(before) != strip_locks(after),
                                      "diff": S.diff_paths(before, after)[:2],
                                      "lock_lost": lock_lost(before, after) if lock else None}
@@ -91,6 +96,10 @@ def judge(run, kind, cname, name, tag, pred, obs, info_row):
     """correspondence with the model's table + the property oracle, for one call"""
     klass, blocks, blocks_bp, kw = pred
     L, U = obs["L"], obs["U"]
+    if "timeout" in (L["out"], U["out"]):
+        # the call hit the per-call time limit (a loaded machine; a thread pool; …): interrupted half-way, no verdict either way
+        run.count("sweep", "timeout:no-verdict")
+        return
     case = {"class": cname, "method": name, "variant": tag}
     bypass = "inplace" in tag
     # ---- what the model predicts for the locked subject
@@ -124,6 +133,9 @@ def judge(run, kind, cname, name, tag, pred, obs, info_row):
     fp = f"{cname}.{name}[{tag}]"
     if (klass == "exempt" or model == "exempt") and L.get("lock_lost"):
         run.oracle_fail("sweep", case, f"{name}({tag}) is a storage conversion, but a node of the locked {cname} came out unlocked: {L['lock_lost']}", fp)
+        return
+    if L["out"] == "lock" and L.get("meta_diff"):
+        run.oracle_fail("sweep", case, f"{name}({tag}) was refused on the locked {cname} (lock error), yet dimension names / batch size / device changed: {L['meta_diff']}", fp + ":meta")
         return
     if klass != "exempt" and model != "exempt":
         if L["bind_changed"]:
@@ -161,8 +173,11 @@ def replay_filter(run):
 
 
 def sweep(run, drv, info, scratch_dir, thorough):
+    import os
     scratch = S.Scratch()
     only = replay_filter(run)
+    cwd = os.getcwd()
+    os.chdir(scratch.dir)          # some callables take a file name where the sweep passes a key ("a", "zz"): keep those files out of the tree
     try:
         preds = {}
         for kind in S.KINDS:
@@ -232,7 +247,7 @@ def sweep(run, drv, info, scratch_dir, thorough):
                     run.count("sweep.writer_ok_under_lock", name)
                 if must_ok:
                     # "in-place value writes stay possible": the write goes through on the unlocked twin, so it must on the locked subject
-                    if obs["U"]["out"] == "ok" and obs["L"]["out"] != "ok":
+                    if obs["U"]["out"] == "ok" and obs["L"]["out"] not in ("ok", "timeout"):
                         run.oracle_fail("sweep", {"class": cname, "method": name, "variant": tag},
                                         f"in-place write {name}({tag}) returns normally on the unlocked twin but raises '{obs['L']['out']}' on the locked {cname}",
                                         f"inplace-refused:{cname}.{name}")
@@ -252,4 +267,5 @@ def sweep(run, drv, info, scratch_dir, thorough):
         run.sample({"stream": "sweep", "predict TensorDict.exclude": drv.ask("(c05.predict TensorDict exclude)"),
                     "predict TensorDict.get": drv.ask("(c05.predict TensorDict get)")})
     finally:
+        os.chdir(cwd)
         scratch.close()
